@@ -141,7 +141,7 @@ def showSettings (l : List (Option ColSetting)) : String :=
         (match s.dtype with | .none => "none" | .bytes => "bytes" | .str => "str")) ","
 
 /-- events of the protocol-state ops: `q<id>` simple query, `Q<id>` censored query, `p<name>=<id>` Parse,
-`b<portal>=<stmt>` Bind, `e<portal>` Execute, `s` Sync, `o` other; database side: `D` DataRow, `C` done,
+`b<portal>=<stmt>` Bind, `e<portal>` Execute, `s` Sync, `o` other; database side: `D` DataRow, `C` done, `S` PortalSuspended,
 `E` error, `Z` ready, `O` other -/
 def showSrc : Src Nat Nat → String
   | .simple s => s!"simple{s}"
@@ -187,6 +187,8 @@ def pendingRun : PState Nat Nat → Nat → List String → List String → Opti
       let used := match rowEntry st.pending with | some q => "row:" ++ showSrc q | none => "row:none"
       pendingRun st n es (used :: acc)
     | ['C'] => let st' := { st with pending := dbStep st.pending .done }; pendingRun st' n es (showQueue st'.pending :: acc)
+    -- PortalSuspended ends a row-limited Execute like CommandComplete
+    | ['S'] => let st' := { st with pending := dbStep st.pending .done }; pendingRun st' n es (showQueue st'.pending :: acc)
     | ['E'] => let st' := { st with pending := dbStep st.pending .error }; pendingRun st' n es (showQueue st'.pending :: acc)
     | ['Z'] => let st' := { st with pending := dbStep st.pending .ready }; pendingRun st' n es (showQueue st'.pending :: acc)
     | ['O'] => pendingRun st n es (showQueue st.pending :: acc)
